@@ -8,7 +8,7 @@
 mod factorize;
 mod search;
 
-pub use factorize::{factorize, Factors};
+pub use factorize::{factorize, try_factorize, Factors};
 pub use search::search;
 
 pub(crate) use search::search_internal;
